@@ -2,6 +2,7 @@
   Helper lemmas for the style layer of C06 (not property statements).
 -/
 import SV.Spec.C06Style
+import SV.Spec.C06
 
 namespace SV.Proofs.C06
 open SV.Model.C06 SV.Spec.C06
@@ -547,5 +548,82 @@ theorem cell_plain_toString' {vt vm vs : Variant} {c : Cell} {name : Str} {x : V
   refine ⟨itemStr vs p, by simp [cellWire, h, applyConvsVal, convStr, spell], ?_⟩
   rw [itemStr_spell vs p hs]
   rfl
+
+/-! ### UTF-8 round trip -/
+
+theorem utf8Dec_char (cp : Nat) (h : isScalar cp = true) (rest : Bytes) :
+    utf8Dec 0 0 0 (utf8Char cp ++ rest) = (utf8Dec 0 0 0 rest).map (cp :: ·) := by
+  simp only [isScalar, Bool.and_eq_true, decide_eq_true_eq, Bool.not_eq_true', Bool.and_eq_false_iff,
+    decide_eq_false_iff_not] at h
+  obtain ⟨hmax, hsur⟩ := h
+  unfold utf8Char
+  by_cases h1 : cp < 128
+  · simp only [h1, if_true, List.cons_append, List.nil_append, utf8Dec]
+  · by_cases h2 : cp < 2048
+    · have a1 : ¬ (192 + cp / 64 < 128) := by omega
+      have a2 : 194 ≤ 192 + cp / 64 ∧ 192 + cp / 64 < 224 := by omega
+      have a3 : 128 ≤ 128 + cp % 64 ∧ 128 + cp % 64 < 192 := by omega
+      have a4 : (192 + cp / 64 - 192) * 64 + (128 + cp % 64 - 128) = cp := by omega
+      have a5 : isScalar cp = true := by simp [isScalar]; omega
+      simp only [h1, h2, if_false, if_true, List.cons_append, List.nil_append, utf8Dec, a1, a2, a3, and_self, a4]
+      have a6 : 128 ≤ cp := by omega
+      simp [a5, a6]
+    · by_cases h3 : cp < 65536
+      · have a1 : ¬ (224 + cp / 4096 < 128) := by omega
+        have a2 : ¬ (194 ≤ 224 + cp / 4096 ∧ 224 + cp / 4096 < 224) := by omega
+        have a3 : 224 ≤ 224 + cp / 4096 ∧ 224 + cp / 4096 < 240 := by omega
+        have b1 : 128 ≤ 128 + cp / 64 % 64 ∧ 128 + cp / 64 % 64 < 192 := by omega
+        have b2 : 128 ≤ 128 + cp % 64 ∧ 128 + cp % 64 < 192 := by omega
+        have c1 : (224 + cp / 4096 - 224) * 64 + (128 + cp / 64 % 64 - 128) = cp / 64 := by omega
+        have c2 : cp / 64 * 64 + (128 + cp % 64 - 128) = cp := by omega
+        have a5 : isScalar cp = true := by simp [isScalar]; omega
+        have a6 : 2048 ≤ cp := by omega
+        simp only [h1, h2, h3, if_false, if_true, List.cons_append, List.nil_append, utf8Dec, a1, a2, a3, b1, b2,
+          and_self, c1, c2]
+        simp [a5, a6]
+      · have a1 : ¬ (240 + cp / 262144 < 128) := by omega
+        have a2 : ¬ (194 ≤ 240 + cp / 262144 ∧ 240 + cp / 262144 < 224) := by omega
+        have a3 : ¬ (224 ≤ 240 + cp / 262144 ∧ 240 + cp / 262144 < 240) := by omega
+        have a4 : 240 ≤ 240 + cp / 262144 ∧ 240 + cp / 262144 < 245 := by omega
+        have b1 : 128 ≤ 128 + cp / 4096 % 64 ∧ 128 + cp / 4096 % 64 < 192 := by omega
+        have b2 : 128 ≤ 128 + cp / 64 % 64 ∧ 128 + cp / 64 % 64 < 192 := by omega
+        have b3 : 128 ≤ 128 + cp % 64 ∧ 128 + cp % 64 < 192 := by omega
+        have c1 : (240 + cp / 262144 - 240) * 64 + (128 + cp / 4096 % 64 - 128) = cp / 4096 := by omega
+        have c2 : cp / 4096 * 64 + (128 + cp / 64 % 64 - 128) = cp / 64 := by omega
+        have c3 : cp / 64 * 64 + (128 + cp % 64 - 128) = cp := by omega
+        have a5 : isScalar cp = true := by simp [isScalar]; omega
+        have a6 : 65536 ≤ cp := by omega
+        simp only [h1, h2, h3, if_false, if_true, List.cons_append, List.nil_append, utf8Dec, a1, a2, a3, a4, b1, b2, b3,
+          and_self, c1, c2, c3]
+        simp [a5, a6]
+
+theorem utf8Decode_utf8 (s : Str) (h : ∀ c ∈ s, isScalar c = true) : utf8Decode (utf8 s) = some s := by
+  unfold utf8Decode
+  induction s with
+  | nil => rfl
+  | cons c t ih =>
+    have hc := h c (by simp)
+    have ht := ih (fun x hx => h x (by simp [hx]))
+    simp only [utf8, List.flatMap_cons] at ht ⊢
+    rw [utf8Dec_char c hc, ht]
+    rfl
+
+theorem utf8Char_isBytes (cp : Nat) (h : isScalar cp = true) : ∀ b ∈ utf8Char cp, b < 256 := by
+  simp only [isScalar, Bool.and_eq_true, decide_eq_true_eq] at h
+  intro b hb
+  unfold utf8Char at hb
+  split at hb
+  · simp at hb; omega
+  · split at hb
+    · simp at hb; omega
+    · split at hb
+      · simp at hb; omega
+      · simp at hb; omega
+
+theorem utf8_isBytes (s : Str) (h : ∀ c ∈ s, isScalar c = true) : IsBytes (utf8 s) := by
+  intro b hb
+  simp only [utf8, List.mem_flatMap] at hb
+  obtain ⟨c, hc, hbc⟩ := hb
+  exact utf8Char_isBytes c (h c hc) b hbc
 
 end SV.Proofs.C06
